@@ -8,7 +8,7 @@ from vlib.verdict import Case
 PROPERTY = 'C13'
 MANIFEST = {
  'level_text': 'Lean 4 theorems about a model of the command tokenizer (the shlex read_token/get_token state machine with pushback and backslash flag, Tokenizer.tokenize/_insideBrackets/_handleToken including the byte-level utf8 -> unicode_escape -> latin-1 -> utf8 decoding chain with \\N{name} escapes decoded through a name-table parameter and the final scalar-value check, callbacks.tokenize, utils.str.dqrepr): tokenising any string under any valid configuration and any name table yields a token tree or a syntax error, never another failure; every token is a string of Unicode scalar values; any list of arguments written in double quotes with backslash escaping, or with dqrepr, tokenises back to exactly that list (all Unicode, all bracket styles, pipe on/off, all quote sets containing the double quote); any tree rendered with brackets and quoted or bare-word leaves tokenises back to exactly that tree, and with nesting off the result has no sub-lists. Kernel-checked, constants regenerated from /repo on every run, model tied to the code by a differential correspondence run at several levels (tokenize with scoped configuration, Tokenizer, lexer, _handleToken, unicode_escape codec, writers) that also evaluates the property statement on the implementation.',
- 'level_note': 'Trusted: Lean kernel (axioms propext/Classical.choice/Quot.sound only); Lean core UTF-8 codec (String.utf8EncodeChar / ByteArray.utf8Decode?, with the core round-trip theorem) standing for Python str.encode("utf8") / bytes.decode(); harness/extractors/tokenizer.py; the correspondence harness. Modelled and proved: shlex lexer as configured by Tokenizer (commenters empty - checked by the extractor), parser incl. pipe epilogue, codec chain incl. octal/hex/u/U/N escapes and all error branches, callbacks.tokenize configuration logic, dqrepr. Parameter: the Unicode name table of the codec (a partial map from the bytes between the braces of \\N{...} to a code point); the driver is given, for every name occurring in the inputs, what the real codec answers. Outside the model: CPython recursion limit (depth <= 200 in generators; one IRC line carries < 500 brackets), input strings with lone surrogates, registry lookup (getSpecific) of the four configuration values (exercised by the scoped stream).',
+ 'level_note': 'Trusted: Lean kernel (axioms propext/Classical.choice/Quot.sound only); Lean core UTF-8 codec (String.utf8EncodeChar / ByteArray.utf8Decode?, with the core round-trip theorem) standing for Python str.encode("utf8") / bytes.decode(); harness/extractors/tokenizer.py; the correspondence harness. Modelled and proved: shlex lexer as configured by Tokenizer (commenters empty - checked by the extractor), parser incl. pipe epilogue, codec chain incl. octal/hex/u/U/N escapes and all error branches, callbacks.tokenize configuration logic, dqrepr. Parameter: the Unicode name table of the codec (a partial map from the bytes between the braces of \\N{...} to a code point); the driver is given, for every name occurring in the inputs, what the real codec answers. Outside the model: CPython recursion limit (generators go as deep as one 512-byte IRC line allows, 470 brackets), input strings with lone surrogates, registry lookup (getSpecific) of the four configuration values (exercised by the scoped stream).',
  'technique': 'Lean 4 proof (induction on input / fuel, state invariant, measure) + table extraction + differential correspondence',
  'design_ref': 'DESIGN.md §6 C13',
 }
@@ -410,7 +410,7 @@ class Explorer(object):
     def add(self, case, line):
         self.cases.append(case); self.lines.append(line); self.pend.append(case)
 
-    def tok(self, cf, s, kind, expect=None, finding=None, extra_tags=(), at=None, scope=None):
+    def tok(self, cf, s, kind, expect=None, finding=None, extra_tags=(), at=None, scope=None, history=None):
         """expect: python tree the property statement requires (None = only totality).
         at = (network, channel): tokenize is called with these arguments under the scoped configuration
         `scope` already applied; `cf` is then the effective configuration computed by the harness"""
@@ -441,6 +441,9 @@ class Explorer(object):
                  tags=tags, finding=(finding if not ok else None))
         if at is not None:
             c.input['network'] = at[0]; c.input['channel'] = at[1]
+            if history is not None:
+                # what happened before in this scope: the first configuration, then every tokenize call and every change
+                c.input['history'] = [list(h) for h in history]
             c.input['scope'] = dict(nested=scope['nested'], glob=scope['glob'], net=scope['net'], chan=scope['chan'],
                                     netchan=[[n, ch, d] for (n, ch), d in scope['netchan'].items()])
             if not ok:
@@ -501,45 +504,77 @@ def explore(impl, r, n, corpus=()):
         if not valid_unicode(s): continue
         ex.tok(cf, s, 'nestw', expect=bare_value(items), extra_tags=('w:nestw',))
     n_sc = n.get('scoped', 0)
-    while n_sc > 0:
-        sc, chans = gen_scoped(r)
-        impl.apply_scoped(sc)
-        for _ in range(12):
-            n_sc -= 1
+    hist = []
+    def scoped_round(sc, chans, count):
+        for _ in range(count):
             at = (r.choice([None, None, 'vtneta', 'vtnetb', 'nonet']), r.choice([None] + chans + chans + ['notachannel']))
             cf = effective(sc, at[0], at[1])
+            hist.append(['tok', at[0], at[1]])
             x = r.random()
-            if x < 0.35:
-                ex.tok(cf, gen_raw(r), 'scoped', at=at, scope=sc, extra_tags=('scoped',))
-            elif x < 0.55 and '"' in cf[3]:
+            if x < 0.3:
+                ex.tok(cf, gen_raw(r), 'scoped', at=at, scope=sc, extra_tags=('scoped',), history=hist[:-1])
+            elif x < 0.5 and '"' in cf[3]:
                 xs = gen_args(r)
                 if all(valid_unicode(a) for a in xs):
-                    ex.tok(cf, ' '.join(quote(a) for a in xs), 'scoped', expect=xs, at=at, scope=sc, extra_tags=('scoped', 'w:quote'))
+                    ex.tok(cf, ' '.join(quote(a) for a in xs), 'scoped', expect=xs, at=at, scope=sc, extra_tags=('scoped', 'w:quote'), history=hist[:-1])
             elif x < 0.75 and cf[0] and cf[1] and '"' in cf[3]:
                 t = gen_tree(r, r.randint(0, 3))
                 s2 = ' '.join(render(a, cf[1][0], cf[1][1], ' ') for a in t)
-                ex.tok(cf, s2, 'scoped', expect=t, at=at, scope=sc, extra_tags=('scoped', 'w:nest'))
+                ex.tok(cf, s2, 'scoped', expect=t, at=at, scope=sc, extra_tags=('scoped', 'w:nest'), history=hist[:-1])
             else:
                 # the pipe syntax: on => `a | b` is `b [a]`; off => `|` is an ordinary word
                 seg = lambda: [''.join(r.choice('abcxyz019') for _ in range(r.randint(1, 4))) for _ in range(r.randint(1, 3))]
                 a, b = seg(), seg()
                 want = (b + [a]) if (cf[0] and cf[2]) else (a + ['|'] + b)
                 ex.tok(cf, ' '.join(a) + ' | ' + ' '.join(b), 'scoped', expect=want, at=at, scope=sc,
-                       extra_tags=('scoped', 'pipe-on' if (cf[0] and cf[2]) else 'pipe-off'))
+                       extra_tags=('scoped', 'pipe-on' if (cf[0] and cf[2]) else 'pipe-off'), history=hist[:-1])
+    while n_sc > 0:
+        sc, chans = gen_scoped(r)
+        impl.apply_scoped(sc)
+        del hist[:]
+        hist.append(['scope', dict(nested=sc['nested'], glob=sc['glob'], net=sc['net'], chan=sc['chan'],
+                                   netchan=[[n_, c_, d_] for (n_, c_), d_ in sc['netchan'].items()])])
+        scoped_round(sc, chans, 6); n_sc -= 6
+        # a HISTORY: the owner changes one value at one level (`config [network x] [channel #y] …`), commands are
+        # tokenised again at the same and at other (network, channel) pairs, several rounds; the effective
+        # configuration is recomputed from what was set after every change
+        for _round in range(3):
+            k = r.choice(['brackets', 'pipeSyntax', 'quotes'])
+            v = {'brackets': r.choice(BRACKETS), 'pipeSyntax': r.random() < 0.5, 'quotes': r.choice(['"', '"\'', '`"', "'", ''])}[k]
+            level = r.choice(['glob', 'net', 'chan', 'netchan', 'netchan'])
+            sc = dict(sc, glob=dict(sc['glob']), net={a: dict(b) for a, b in sc['net'].items()},
+                      chan={a: dict(b) for a, b in sc['chan'].items()}, netchan={a: dict(b) for a, b in sc['netchan'].items()})
+            g = impl.scoped_groups()[k]
+            if level == 'glob':
+                sc['glob'][k] = v; g.setValue(v); hist.append(['set', k, None, None, v])
+            elif level == 'net':
+                sc['net'].setdefault('vtneta', {})[k] = v; g.get(':vtneta').setValue(v); hist.append(['set', k, 'vtneta', None, v])
+            elif level == 'chan':
+                ch = r.choice(chans)
+                sc['chan'].setdefault(ch, {})[k] = v; g.get(ch).setValue(v); hist.append(['set', k, None, ch, v])
+            else:
+                key = (r.choice(['vtneta', 'vtnetb']), r.choice(chans))
+                sc['netchan'].setdefault(key, {})[k] = v; g.get(':' + key[0]).get(key[1]).setValue(v)
+                hist.append(['set', k, key[0], key[1], v])
+            scoped_round(sc, chans, 4); n_sc -= 4
     impl._conf = None
     for _ in range(n.get('deep', 0)):
-        d = r.randint(50, 200)
+        # as deep as one IRC line can carry: 512 bytes minus ':nick!user@host PRIVMSG #c :@' leave about 470
+        d = r.randint(50, 470)
         b = r.choice(BRACKETS[1:])
         cf = (True, b, False, '"')
-        k = r.randint(0, 2)
+        k = r.randint(0, 3)
+        if k == 3:
+            ex.tok(cf, 'echo ' + b[0] * (d - 5), 'deep', extra_tags=('deep',)); continue
         if k == 0:
+            d = min(d, 230)               # `[[…"x"…]]` takes two characters per level
             t = 'x'
             for _ in range(d): t = [t]
             ex.tok(cf, render(t, b[0], b[1], ' '), 'deep', expect=[t], extra_tags=('deep',))
         elif k == 1:
             ex.tok(cf, b[0] * d + 'x', 'deep', extra_tags=('deep',))
         else:
-            ex.tok(cf, b[0] * d + b[1] * (d + 1), 'deep', extra_tags=('deep',))
+            ex.tok(cf, b[0] * (d // 2) + b[1] * (d // 2 + 1), 'deep', extra_tags=('deep',))
     for _ in range(n.get('T', 0)):
         b = r.choice(BRACKETS + ['[]', 'x', 'xy', '[]]', '||', '""', '  '])
         p = r.random() < 0.5; q = r.choice(QUOTESETS); s = gen_raw(r)
@@ -668,7 +703,7 @@ def run(ctx):
     return verdict.conclude(PROPERTY, ctx.tier, ctx.seed, build, cases, search=search, rule=RULE,
                             finding_status=finding_status(impl), trusted_base=TRUSTED,
                             assumptions=['input strings are sequences of Unicode scalar values (no lone surrogates)',
-                                         'nesting depth <= 200 (CPython recursion limit is not modelled; an IRC line carries < 500 brackets)',
+                                         'nesting depth: everything that fits in one IRC line (up to 470 brackets; CPython recursion limit itself is not modelled)',
                                          'configuration values passed validation (ValidBrackets, ValidQuotes)'],
                             t0=ctx.t0)
 
@@ -682,7 +717,26 @@ def replay(ctx, path):
     if not c:
         return 0
     i = c['input']
-    if i.get('op') == 'tok' and 'scope' in i:
+    if i.get('op') == 'tok' and 'history' in i:
+        # re-live the scope: first configuration, then every earlier tokenize call and configuration change
+        for h in i['history']:
+            if h[0] == 'scope':
+                sc = dict(h[1]); sc['netchan'] = {(n, ch): d for n, ch, d in sc['netchan']}
+                impl.apply_scoped(sc)
+            elif h[0] == 'tok':
+                impl.tokenize_at('x', h[1], h[2])
+            else:
+                g = impl.scoped_groups()[h[1]]
+                if h[2]: g = g.get(':' + h[2])
+                if h[3]: g = g.get(h[3])
+                g.setValue(h[4])
+                print('config change: %s network=%r channel=%r := %r' % (h[1], h[2], h[3], h[4]))
+        out, r = impl.tokenize_at(i['s'], i['network'], i['channel'])
+        print('implementation now: tokenize(%r, channel=%r, network=%r) -> %s' % (i['s'], i['channel'], i['network'], repr(r) if r is not None else out))
+        if 'expect' in i:
+            print('required (effective pipeSyntax=%r brackets=%r quotes=%r nested=%r): %r   %s' % (
+                i['pipeSyntax'], i['brackets'], i['quotes'], i['nested'], i['expect'], 'OK' if r == i['expect'] else 'FAILS'))
+    elif i.get('op') == 'tok' and 'scope' in i:
         sc = dict(i['scope']); sc['netchan'] = {(n, ch): d for n, ch, d in sc['netchan']}
         impl.apply_scoped(sc)
         out, r = impl.tokenize_at(i['s'], i['network'], i['channel'])
